@@ -24,7 +24,9 @@ RULE = ("prog: 2..6 flows, each waits for `match E(<subset of the payload, occas
         "and stop them on the same event (identical non-Start events of different action instances). score: two match statements (0..8 mentioned "
         "parameters, priority pool) against one event through the real _compute_event_comparison_score, float order vs the exact order of "
         "prio*(num/den)^k (Lean mcmp). non-trivial = some recorded call has >= 2 heads in one loop, or a score pair that differs in k or priority; "
-        "distinct = distinct case JSON.")
+        "distinct = distinct case JSON. Phase 4: 10% low-priority programs (priority 0.05..0.3, 4..10 event parameters, neighbouring specificity levels); "
+        "shape `borrow` (the flow sends the Start event of an action it holds by reference only); `@loop(\"NEW\")` programs; two keyword arguments written "
+        "in either order; 4% restart programs (sharers of one action send its Start event again against a fresh instance).")
 TRUSTED_BASE = [
     "record/replay harness harness/props/C05.py (recorders around _resolve_action_conflicts/_abort_flow/random.choice, rank mapping of floats, "
     "event keys = canonical JSON of name+arguments) + Lean driver Drive/C05.lean",
@@ -33,8 +35,9 @@ TRUSTED_BASE = [
 ]
 ASSUMPTIONS = [
     "head uids handed to _resolve_action_conflicts are pairwise distinct (checked on every recorded call)",
-    "a competing action uid is present in its flow's action_uids and in state.actions (list.index / del would raise otherwise; not modelled)",
-    "modelled by hand: _resolve_action_conflicts (with the repairs of fixes/C05-shared-action-cowin.diff — applied — and fixes/C05-identical-event-of-different-actions.diff); get_event_from_element, _abort_flow, "
+    "the look-ups of the co-winner branch (action_uids.index, del state.actions[uid]) succeed when the competing flow owns its action and the uid is still "
+    "in state.actions (theorem cowin_lookups_succeed; modelled as-is by cowinStepAsIs); where they do not: findings cowin-on-borrowed-action, cowin-double-delete",
+    "modelled by hand: _resolve_action_conflicts (with the repairs of fixes/C05-shared-action-cowin.diff, fixes/C05-identical-event-of-different-actions.diff — both applied — and the proposed fixes/C05-cowin-on-borrowed-action.diff, fixes/C05-cowin-double-delete.diff); get_event_from_element, _abort_flow, "
     "_advance_head_front are observed, not modelled",
 ]
 EXHAUSTIVE = {"quick": False, "thorough": False}
